@@ -139,6 +139,9 @@ func pcErrClass(err error) string {
 	case errors.Is(err, webrtc.ErrSenderWithNoCodecs):
 		return "sender-with-no-codecs"
 	}
+	if strings.Contains(err.Error(), "excessive retries") {
+		return "excessive-retries"
+	}
 	return "other:" + err.Error()
 }
 
@@ -565,6 +568,17 @@ func pcGen(r *Rand, answer bool) pcCase {
 				table = c.Audio
 			}
 			s := rsec{Kind: pcKindName(k), Codecs: genOffer(r, pcKindName(k), table, remap)}
+			// a well-formed offer lists a payload type once (clashing payload types
+			// are exercised on the MediaEngine directly in C15's engine suite)
+			seenPT := map[uint8]bool{}
+			uniq := s.Codecs[:0]
+			for _, oc := range s.Codecs {
+				if !seenPT[oc.PT] {
+					seenPT[oc.PT] = true
+					uniq = append(uniq, oc)
+				}
+			}
+			s.Codecs = uniq
 			if len(s.Codecs) == 0 { // an m= line needs a format; "0" would mean static PCMU
 				s.Codecs = []rcodec{{Name: "unknown-codec", Clock: 90000, PT: 126}}
 			}
@@ -599,6 +613,9 @@ func pcShrink(c pcCase) []pcCase {
 			out = append(out, x)
 		}
 		for k := range c.Remote[i].Codecs {
+			if len(c.Remote[i].Codecs) < 2 {
+				break // an m= line keeps at least one format
+			}
 			x := cp()
 			x.Remote[i].Codecs = append(x.Remote[i].Codecs[:k], x.Remote[i].Codecs[k+1:]...)
 			out = append(out, x)
